@@ -170,6 +170,96 @@ def enum_reuse(rep, d) -> None:
                                 component_default=cdef, inline_default=idef, got=enc)
 
 
+PARAM_DEFAULTS = {"string": ("zzz", "zzz"), "int": (7, "7"), "float": (2.5, "2.5"), "bool": (True, "true"), "date": ("2021-02-03", "2021-02-03"),
+                  "datetime": ("2021-02-03T04:05:06+00:00", "2021-02-03T04:05:06+00:00"), "uuid": ("22345678-1234-5678-1234-567812345678", "22345678-1234-5678-1234-567812345678"),
+                  "enums": ("b", "b"), "enumi": (2, "2")}
+
+
+def parameter_defaults(rep, d) -> None:
+    """D1 for PARAMETERS: a default declared on a query / header / cookie / path parameter is the default of the function argument - calling
+    the endpoint with the argument omitted sends exactly the declared value.  Path parameters: the defaulted one last (after one without a
+    default), and all of them defaulted."""
+    paths, plan = {}, []
+    n = 0
+    for literal in (False, True):
+        pass
+    for k, (dv, text) in PARAM_DEFAULTS.items():
+        sch = dict(KIND[k], default=dv)
+        for loc in ("query", "header", "cookie", "path-last", "path-all"):
+            if loc == "header" and k in ("date", "datetime"):
+                continue            # not an allowed header kind
+            n += 1
+            if loc == "path-last":
+                path = f"/t{n}/{{tenant}}/r/{{p}}"
+                params = [{"name": "tenant", "in": "path", "required": True, "schema": {"type": "string"}}, {"name": "p", "in": "path", "required": True, "schema": sch}]
+            elif loc == "path-all":
+                path = f"/t{n}/{{tenant}}/r/{{p}}"
+                params = [{"name": "tenant", "in": "path", "required": True, "schema": {"type": "string", "default": "acme"}}, {"name": "p", "in": "path", "required": True, "schema": sch}]
+            else:
+                path = f"/t{n}"
+                params = [{"name": "p", "in": loc, "required": False, "schema": sch}]
+            paths[path] = {"get": {"operationId": f"pd{n}", "tags": ["t"], "parameters": params, "responses": {"204": {"description": "d"}}}}
+            plan.append({"op": f"pd{n}", "k": k, "loc": loc, "text": text})
+    doc = gen.mkdoc(paths=paths)
+    for literal in (False, True):
+        pkg = f"pdef{int(literal)}"
+        g = gen.generate(doc, d / pkg, literal_enums=literal)
+        if g["exc"] or g["rejected"] or g["diags"]:
+            rep.violate(f"C13/parameter-defaults/not-generated{'/literal' if literal else ''}", f"{(g['exc'] or str(g['diags'][:2]))[-400:]}", doc=doc)
+            continue
+        script = r'''
+import json, sys, importlib
+from urllib.parse import parse_qsl, unquote
+import httpx
+job = json.load(sys.stdin); sys.path.insert(0, job["parent"]); pkg = job["pkg"]
+client_mod = importlib.import_module(pkg + ".client")
+out = {}
+for c in job["plan"]:
+    seen = []
+    def handler(request, seen=seen):
+        seen.append(request); return httpx.Response(204)
+    try:
+        mod = importlib.import_module(f"{pkg}.api.t.{c['op']}")
+        client = client_mod.Client(base_url="http://t/b", httpx_args={"transport": httpx.MockTransport(handler)})
+        kw = {"tenant": "acme"} if c["loc"] == "path-last" else {}
+        mod.sync_detailed(client=client, **kw)
+        r = seen[0]
+        if c["loc"].startswith("path"):
+            got = unquote(r.url.raw_path.decode().split("?")[0].rsplit("/", 1)[-1]); tenant = r.url.raw_path.decode().split("/")[3]
+            out[c["op"]] = {"got": got, "tenant": tenant}
+        elif c["loc"] == "query":
+            out[c["op"]] = {"got": dict(parse_qsl(r.url.query.decode())).get("p")}
+        elif c["loc"] == "header":
+            out[c["op"]] = {"got": r.headers.get("p")}
+        else:
+            ck = dict(x.strip().split("=", 1) for x in r.headers.get("cookie", "").split(";") if "=" in x)
+            out[c["op"]] = {"got": ck.get("p")}
+    except Exception as e:
+        out[c["op"]] = {"error": type(e).__name__ + ": " + str(e)[:160]}
+print(json.dumps(out))
+'''
+        import subprocess
+        from ..common import VENV_PY
+        p = subprocess.run([VENV_PY, "-I", "-c", script], input=json.dumps({"parent": str(d), "pkg": pkg, "plan": plan}), capture_output=True, text=True, timeout=300)
+        if p.returncode != 0:
+            rep.violate(f"C13/parameter-defaults/package-broken{'/literal' if literal else ''}", p.stderr[-500:], doc=doc)
+            continue
+        out = json.loads(p.stdout.strip().splitlines()[-1])
+        for c in plan:
+            o = out[c["op"]]
+            rep.count(1, ("param-default", c["k"], c["loc"], literal))
+            key = f"C13/parameter-default/{c['loc']}/{c['k']}" + ("/literal" if literal else "")
+            want = c["text"]
+            if c["loc"].startswith("path"):         # str() of the value in a path (ParamWire.tla: pycap / spacedt are recoverable forms)
+                want = {"bool": "True", "datetime": c["text"].replace("T", " ")}.get(c["k"], want)
+            if "error" in o:
+                rep.violate(key + "/omitted-argument-fails", f"{c['loc']} parameter of kind {c['k']} with default {c['text']!r}: calling with the argument omitted fails: {o['error']}", case=c)
+            elif o["got"] != want:
+                rep.violate(key + "/not-sent", f"{c['loc']} parameter of kind {c['k']} with default {c['text']!r}: the request carries {o['got']!r}", case=c, observed=o)
+            elif c["loc"] == "path-all" and o.get("tenant") != "acme":
+                rep.violate(key + "/other-default-lost", f"the defaulted path parameter before it carries {o.get('tenant')!r}", case=c, observed=o)
+
+
 def run(rep) -> None:
     quick = rep.tier == "quick"
     d = scratch("c13-")
@@ -217,6 +307,7 @@ def run(rep) -> None:
                 pass
             judge(rep, cells, mapped, route, literal, doc, g, cases, out, "", trace)
         enum_reuse(rep, d)
+        parameter_defaults(rep, d)
         # code -> spec: outcomes of the direct route validated against Convert.tla by TLC
         (d / "obs.ndjson").write_text("\n".join(json.dumps(e) for e in trace) + "\n")
         tres = tlc.run_tlc("ConvertTrace.tla", "ConvertTrace.cfg", workers=1, env={"TRACE_FILE": str(d / "obs.ndjson")})
